@@ -328,7 +328,7 @@ def addStr (st : St) (cs : List Char) : St := { st with p := { st.p with str := 
 
 /-- one character; `inv` invokes a macro by id -/
 def stepCore (cfg : Cfg) (o : Orc) (inv : Int → St → Res St) (st : St) (ch : Char) : R :=
-  if !rangeOk st.s st.c then .error (.overflow "i32 arithmetic on the cursor / buffer height") else
+  if ¬ RangeOk st.s st.c then .error (.overflow "i32 arithmetic on the cursor / buffer height") else
   match st.p.st with
   | .music m => let (ps, out) := musicStep m ch; ret (setSt st ps) out
   | .esc => escChar st ch
@@ -400,6 +400,14 @@ def stepD : Nat → Cfg → (Nat → Orc) → St → Char → R
       st ch
 
 def step (cfg : Cfg) (o : Nat → Orc) (st : St) (ch : Char) : R := stepD MAX_MACRO_DEPTH cfg o st ch
+
+/-- feed a whole stream; an `Err` result of a character does not stop the run (the emulation keeps accepting input) -/
+def run (cfg : Cfg) (o : Nat → Orc) : St → List Char → Res St
+  | st, [] => .ok st
+  | st, ch :: rest =>
+    match step cfg o st ch with
+    | .ok (st', _) => run cfg o st' rest
+    | .error e => .error e
 
 def initScr (w h : Int) : Scr :=
   { tw := w, th := h, bw := w, bh := h, mtb := none, mlr := none, declrmm := false, autowrap := true, tabs := resetTabs w }
